@@ -150,7 +150,10 @@ class ShellProgram:
         base = shellbuild.basename(self.enc)
         sources = dict(self.files)
         sources[base + '.hh'] = cxxgen.model_header(self.gen, base)
-        sources['main.cc'] = cxxgen.harness(self.gen, self.info, self.enc, self.mapping)
+        header = self.files.get(shellbuild.shell_name(self.enc) + '.hh')
+        sources['main.cc'] = cxxgen.harness(
+            self.gen, self.info, self.enc, self.mapping,
+            shell_class=shellbuild.shell_class(self.enc, header))
         write_files(self.dir, sources)
         return True
 
